@@ -53,6 +53,21 @@ def run(tier, seed):
         progs.append(("%s::a; %s::b; %s::c. q :- a. q :- b. q :- c. query(q)." % ps, s <= 1.0 + 1e-9))
         # head b never reaches the ground program: the same "partial" class
         progs.append(("%s::a; %s::b; %s::c. query(a). query(c)." % ps, s <= 1.0 + 1e-9, "partial"))
+    # a head with probability exactly 1 / 1.0 / 0 / 0.0 next to other heads (all heads queried)
+    for one in ("1.0", "1", "1.0e0"):
+        for other in ("0.3", "0.0", "0", "1.0"):
+            ok = float(other) == 0.0
+            progs.append(("%s::a; %s::b. query(a). query(b)." % (one, other), ok))
+            progs.append(("%s::b; %s::a. query(a). query(b)." % (other, one), ok))
+            progs.append(("0.5::c. %s::a; %s::b :- c. query(a). query(b)." % (one, other), ok))
+    # probabilities bound in the body: several ground instances of one annotated disjunction with different sums
+    # (valid instances before and after an invalid one, same number of heads)
+    for rows in itertools.permutations([("1", "0.5", "0.5"), ("2", "0.6", "0.7"), ("3", "0.2", "0.3")]):
+        facts = " ".join("w(%s,%s,%s)." % r for r in rows)
+        progs.append(("%s P::a(X); Q::b(X) :- w(X,P,Q). query(a(_)). query(b(_))." % facts, False))
+    for rows in itertools.permutations([("1", "0.5", "0.5"), ("2", "0.6", "0.4"), ("3", "0.2", "0.3")]):
+        facts = " ".join("w(%s,%s,%s)." % r for r in rows)
+        progs.append(("%s P::a(X); Q::b(X) :- w(X,P,Q). query(a(_)). query(b(_))." % facts, True))
     for entry in progs:
         src, valid = entry[0], entry[1]
         klass = entry[2] if len(entry) > 2 else None
